@@ -106,6 +106,9 @@ struct MT {
     must_fire_run: Option<u32>,
     updated: bool,
     act: Act,
+    /// the callback closure was dropped without having run
+    dropped_unrun: bool,
+    fired_flag: bool,
 }
 
 struct W {
@@ -139,9 +142,28 @@ struct W {
     max_fixed_in_run: u32,
     c19_nt: bool,
     n_nonadv_runs_with_due: u32,
+    n_del_requeued: u32,
 }
 
 type Wh = Rc<RefCell<W>>;
+
+/// Lives inside every timer callback closure: tells the model when the closure is dropped un-run
+/// (C05: whatever a deleted timer's closure owns, e.g. a Ret, is released at the deletion)
+struct Guard {
+    wh: Wh,
+    idx: usize,
+}
+
+impl Drop for Guard {
+    fn drop(&mut self) {
+        if let Ok(mut w) = self.wh.try_borrow_mut() {
+            let idx = self.idx;
+            if !w.timers[idx].fired_flag {
+                w.timers[idx].dropped_unrun = true;
+            }
+        }
+    }
+}
 
 macro_rules! tr {
     ($w:expr, $($arg:tt)*) => {
@@ -217,6 +239,8 @@ fn do_add(wh: &Wh, s: &mut Stakker, kind: Kind, eff_req: i64, after: Option<i64>
             must_fire_run: None,
             updated: false,
             act,
+            dropped_unrun: false,
+            fired_flag: false,
         });
         let b = w.per_timer_budget(eff);
         w.budget += b;
@@ -239,7 +263,12 @@ fn do_add(wh: &Wh, s: &mut Stakker, kind: Kind, eff_req: i64, after: Option<i64>
         );
     }
     let wh2 = wh.clone();
-    let f = move |s: &mut Stakker| fire(&wh2, s, idx);
+    let guard = Guard { wh: wh.clone(), idx };
+    let f = move |s: &mut Stakker| {
+        guard.wh.borrow_mut().timers[guard.idx].fired_flag = true;
+        drop(guard);
+        fire(&wh2, s, idx)
+    };
     let key = match (kind, after) {
         (Kind::Fixed, Some(d)) => Key::F(s.after(Duration::from_nanos(d as u64), f)),
         (Kind::Fixed, None) => Key::F(s.timer_add(inst(eff), f)),
@@ -506,6 +535,19 @@ fn use_key(wh: &Wh, s: &mut Stakker, sel: KeySel, op: KeyOp) {
                         w.n_del_head += 1;
                     }
                     w.timers[i].st = St::Deleted;
+                    if w.run_idx > w.timers[i].created_run && kind != Kind::Fixed || w.timers[i].long {
+                        w.n_del_requeued += 1;
+                    }
+                    if !w.timers[i].dropped_unrun {
+                        w.rep.viol(
+                            &["C05", "C10"],
+                            "deleted-closure-kept",
+                            format!(
+                                "timer t{} ({:?}) was deleted successfully but its callback closure (and whatever it owns) was not dropped by the delete call",
+                                i, kind
+                            ),
+                        );
+                    }
                     let k = match kind {
                         Kind::Fixed => 0,
                         Kind::Max => 1,
@@ -890,6 +932,7 @@ fn profile(focus: &str) -> [u32; 13] {
         "C10" => [8, 4, 2, 5, 5, 4, 10, 6, 4, 4, 1, 4, 1],
         "C19" => [8, 8, 4, 1, 1, 1, 2, 0, 0, 4, 0, 2, 10],
         "C15" => [14, 4, 2, 3, 3, 3, 2, 1, 0, 4, 1, 2, 2],
+        "C05" => [10, 4, 1, 8, 4, 8, 12, 1, 0, 3, 0, 4, 0],
         _ => [10, 4, 2, 4, 4, 6, 4, 2, 1, 3, 1, 4, 2],
     }
 }
@@ -925,6 +968,7 @@ fn new_world(trace: bool) -> W {
         max_fixed_in_run: 0,
         c19_nt: false,
         n_nonadv_runs_with_due: 0,
+        n_del_requeued: 0,
     }
 }
 
@@ -1204,6 +1248,9 @@ fn finish(w: &mut W) {
     }
     if w.n_nonadv_runs_with_due > 0 {
         w.rep.nt("C15");
+    }
+    if w.n_del_requeued > 0 {
+        w.rep.nt("C05");
     }
     // Classes
     if w.n_upd_at_or_before_now > 0 {
